@@ -2,7 +2,8 @@
    refutation is a theorem with a concrete witness; replayed on the implementation by the harness. *)
 From Coq Require Import ZArith List Bool Lia.
 Import ListNotations.
-From Verif Require Import Base.Num Base.Stream Base.GenPrelude Gen.All Spec.Admissible.
+From Coq Require Import Floats.
+From Verif Require Import Base.Num Base.Stream Base.GenPrelude Gen.All Spec.Admissible Spec.StrategyDoc.
 Local Open Scope Z_scope.
 
 (* C02: the Ichimoku lagging span has LaggingPeriod more values than n - idle (and than its siblings). *)
@@ -53,3 +54,15 @@ Theorem C14_SmmaStrategy_refuted :
 Proof. exists 80%nat. intros T N. eexists. split; [right; left; reflexivity|]. vm_compute. reflexivity. Qed.
 Print Assumptions C14_AlligatorStrategy_refuted.
 Print Assumptions C14_SmmaStrategy_refuted.
+
+(* C06: the CCI strategy computes the CCI of (high, high, high) instead of (high, low, close): on snapshots whose low and
+   close differ from the high its actions differ from the documented ones (binary64 instance, default configuration). *)
+Definition cci_witness : list (asset_Snapshot (T:=float)) :=
+  map (fun k => mk_asset_Snapshot k 50%float 100%float 1%float (if Z.eqb k 75 then 95 else 10)%float 100%float)
+      (map Z.of_nat (seq 1 80)).
+
+Theorem C06_CciStrategy_refuted :
+  sem (strategy_trend_CciStrategy_Compute (I:=asset_Snapshot (T:=float)) strategy_trend_NewCciStrategy (EIn 0)) [cci_witness]
+  <> sem (doc_strategy_trend_CciStrategy_Compute (I:=asset_Snapshot (T:=float)) strategy_trend_NewCciStrategy (EIn 0)) [cci_witness].
+Proof. vm_compute. discriminate. Qed.
+Print Assumptions C06_CciStrategy_refuted.
